@@ -20,9 +20,10 @@ Err(s, e) == [s |-> s, exc |-> e]
 Start(its, id) == IF id = 0 THEN its ELSE [its EXCEPT ![id].started = TRUE]
 Closed(its, id) == IF id = 0 THEN its ELSE [its EXCEPT ![id].closes = @ + 1]
 
+\* make_sequence consumes the iterable and closes it at once (it is no longer referenced afterwards)
 MakeSeq(s) == IF IsSeq(s) THEN s
               ELSE [s EXCEPT !.kind = "list", !.items = Enc(s.items), !.src = 0,
-                             !.oncl = Append(@, s.src), !.its = Start(s.its, s.src)]
+                             !.its = Closed(Start(s.its, s.src), s.src)]
 EnsureSeq(s, mutable) ==
   IF IsSeq(s) THEN Okk(IF mutable /\ s.kind = "tuple" THEN [s EXCEPT !.kind = "list"] ELSE s)
   ELSE IF s.pt \/ ~s.isc THEN Err(s, "RuntimeError")
